@@ -7,6 +7,7 @@ package sim
 
 import (
 	"fmt"
+	"net/netip"
 	"os"
 	"reflect"
 	"strconv"
@@ -14,6 +15,7 @@ import (
 	"testing"
 	"testing/synctest"
 
+	"google.golang.org/protobuf/proto"
 	corev1 "k8s.io/api/core/v1"
 	discoveryv1 "k8s.io/api/discovery/v1"
 	metav1 "k8s.io/apimachinery/pkg/apis/meta/v1"
@@ -28,6 +30,7 @@ import (
 	"istio.io/istio/pkg/kube/controllers"
 	"istio.io/istio/pkg/kube/kclient"
 	istiolog "istio.io/istio/pkg/log"
+	"istio.io/istio/pkg/workloadapi"
 	"istio.io/istio/zz_verif/engine"
 )
 
@@ -293,11 +296,85 @@ func onDemandFindings(oracle string, held, ref, all zsnap, label, who string) []
 		}
 	}
 	if d := zdiffSnap(trimmed, ref); d != "" {
-		for _, cl := range zdiffClasses(trimmed, ref) {
+		// what the reference has and the long-lived client lacks is keyed by why the reference has it
+		for n, b := range ref[t] {
+			if _, ok := trimmed[t][n]; !ok {
+				fs = append(fs, finding{oracle + ":WDS:" + zclass(t, n) + ":missing:" + onDemandReason(b, ref[t]),
+					fmt.Sprintf("after %s the on-demand ztunnel lacks %s, which %s receives: %s", label, n, who, d)})
+			}
+		}
+		withRef := zsnap{t: map[string][]byte{}, v3.WorkloadAuthorizationType: ref[v3.WorkloadAuthorizationType]}
+		for n, b := range ref[t] {
+			if _, ok := trimmed[t][n]; ok {
+				withRef[t][n] = b
+			}
+		}
+		for _, cl := range zdiffClasses(trimmed, withRef) {
 			fs = append(fs, finding{oracle + ":" + cl, fmt.Sprintf("after %s the on-demand ztunnel differs from %s (first=held, second=%s): %s", label, who, who, d)})
 		}
 	}
 	return fs
+}
+
+// onDemandReason says why an on-demand connection with the fixed subscription receives a resource:
+// it answers a name subscribed by address or by hostname, it is a member of a subscribed service, or it
+// runs on the ztunnel's node.
+func onDemandReason(b []byte, ref map[string][]byte) string {
+	var a workloadapi.Address
+	if proto.Unmarshal(b, &a) != nil {
+		return "unreadable"
+	}
+	byAddr, byHost := map[string]bool{}, map[string]bool{}
+	for _, n := range onDemandNames {
+		if strings.HasPrefix(n, "/") {
+			byAddr[n] = true
+		} else {
+			byHost[n] = true
+		}
+	}
+	addrName := func(network string, ip []byte) string {
+		x, _ := netip.AddrFromSlice(ip)
+		return network + "/" + x.String()
+	}
+	if s := a.GetService(); s != nil {
+		for _, na := range s.Addresses {
+			if byAddr[addrName(na.Network, na.Address)] {
+				return "subscribed-by-address"
+			}
+		}
+		if byHost[s.Namespace+"/"+s.Hostname] {
+			return "subscribed-by-hostname"
+		}
+		return "other"
+	}
+	w := a.GetWorkload()
+	for _, ip := range w.GetAddresses() {
+		if byAddr[addrName(w.Network, ip)] {
+			return "subscribed-by-address"
+		}
+	}
+	// services subscribed by hostname, or by one of their addresses
+	for _, rb := range ref {
+		var ra workloadapi.Address
+		if proto.Unmarshal(rb, &ra) != nil || ra.GetService() == nil {
+			continue
+		}
+		s := ra.GetService()
+		for _, na := range s.Addresses {
+			if byAddr[addrName(na.Network, na.Address)] {
+				byHost[s.Namespace+"/"+s.Hostname] = true
+			}
+		}
+	}
+	for k := range w.GetServices() {
+		if byHost[k] {
+			return "member-of-subscribed-service"
+		}
+	}
+	if w.GetNode() == ztunnelNode {
+		return "same-node"
+	}
+	return "other"
 }
 
 // namesFindings: every subscribed name that exists is answered by something held, every subscribed
